@@ -96,7 +96,7 @@ def cpr_encode(lat, lon, odd):
     i = 1 if odd else 0
     dl = dlat(i)
     yz = math.floor(NB * modp(lat, dl) / dl + 0.5)
-    rlat = dl * (yz / NB + math.floor(lat / dl))
+    rlat = dl * (yz / NB + round(lat / dl - yz / NB))  # zone index from the rounded YZ (stable at zone boundaries)
     nli = max(nl(rlat) - i, 1)
     dlon = 360.0 / nli
     xz = math.floor(NB * modp(lon, dlon) / dlon + 0.5)
